@@ -569,18 +569,18 @@ func podData(p *corev1.Pod, all bool) *psched.PodData {
 // rerunClaim offers the pods the NodeClaim was created for, in their original order and with their original specs,
 // to the REAL ExistingNode the scheduler builds for that claim now (trySchedule's loop restricted to this node:
 // CanAdd, Relax on failure).  Emits a CRerun case.
-func (m *mp) rerunClaim(c *kit.Ctx, claim string, podKeys []string, stage string, world int) bool {
+func (m *mp) rerunClaim(c *kit.Ctx, claim string, podKeys []string, stage string, world int) (bool, string) {
 	fv, err := m.fresh()
 	if err != nil {
 		panic(err)
 	}
 	s, _, err := fv.probe(m)
 	if err != nil || s == nil {
-		return true
+		return true, ""
 	}
 	nc := &v1.NodeClaim{}
 	if err := m.cl.Get(m.ctx, client.ObjectKey{Name: claim}, nc); err != nil {
-		return true
+		return true, ""
 	}
 	var en *psched.ExistingNode
 	for _, e := range s.VerifC04ExistingNodes() {
@@ -597,7 +597,7 @@ func (m *mp) rerunClaim(c *kit.Ctx, claim string, podKeys []string, stage string
 	}
 	if en == nil || sn == nil {
 		c.Count("rerun.claim-not-active")
-		return true
+		return true, ""
 	}
 	all := !m.cfg.IgnorePreferences
 	prefs := &psched.Preferences{ToleratePreferNoSchedule: s.VerifC04ToleratePreferNoSchedule()}
@@ -644,15 +644,16 @@ func (m *mp) rerunClaim(c *kit.Ctx, claim string, podKeys []string, stage string
 	if li != nil {
 		in["launched"] = map[string]interface{}{"instanceType": li.Type.Name, "offering": sk.DumpReqs(li.Offering.Requirements), "allocatable": sk.Milli(li.Alloc), "choices": li.Eligible, "allocatableDominatesOtherOfferings": li.Dominates}
 	}
+	kf := ""
 	if !realOK {
-		if k := m.kfRerun(nc, li, pods, firstErr); k != "" {
-			in["kf_key"] = k
-			c.Count("kf-shape." + k)
+		if kf = m.kfRerun(nc, li, pods, firstErr); kf != "" {
+			in["kf_key"] = kf
+			c.Count("kf-shape." + kf)
 		}
 	}
 	raw, _ := json.Marshal([]interface{}{d, pods})
 	c.AddCase(term, in, "rerun|"+string(raw))
-	return realOK
+	return realOK, kf
 }
 
 // kfRerun recognises the one known defect that makes an in-flight node reject the pods of its own claim: F10
@@ -1098,11 +1099,16 @@ func runWorld(c *kit.Ctx, r *kit.Rand, idx int) {
 				fmt.Fprintf(os.Stderr, "   %s -> error %.80s (was %s)\n", k, e, served[k])
 			}
 		}
-		allJoint := true
+		allJoint, jointKF := true, ""
 		for _, n := range live {
 			if !m.deleted[n] {
-				if !m.rerunClaim(c, n, claimPods[n], stageName(stage[n]), idx) {
+				if ok, kf := m.rerunClaim(c, n, claimPods[n], stageName(stage[n]), idx); !ok {
 					allJoint = false
+					if jointKF == "" || jointKF == kf {
+						jointKF = kf
+					} else {
+						jointKF = "-"
+					}
 				}
 			}
 		}
@@ -1144,6 +1150,8 @@ func runWorld(c *kit.Ctx, r *kit.Rand, idx int) {
 		if allJoint && displaced {
 			key = kfDisplacement
 			c.Count("kf-shape." + key)
+		} else if !allJoint && jointKF != "" && jointKF != "-" {
+			key = jointKF // the in-flight node rejects its own pods for a known reason (reported with the CRerun case)
 		}
 		c.Fail(c.NextID(), fmt.Sprintf("pass %s opens new capacity (or fails) for pods whose NodeClaim is still starting: %v", labels[round], again), key,
 			map[string]interface{}{"kind": "rerun-pass", "world": idx, "stage": labels[round], "podsServedAgain": again, "createdFor": served, "podsOnInFlightNodes": onNode,
